@@ -587,13 +587,16 @@ func (fc *FontConfigurationGotext) splitFirstLine(hyphenCache map[HyphenDictKey]
 	// That's why we either try to hyphenate the end of the first line or
 	// the start of the second
 	nextWord := secondLineText
+	nextWordInFirstLine := false
 	if firstLine.Width > maxWidthV {
 		nextWord = firstLineText
+		nextWordInFirstLine = true
 	}
 
 	// cut at the first space
 	if i := index(secondLineText, ' '); i != -1 {
 		nextWord = secondLineText[:i]
+		nextWordInFirstLine = false
 	}
 
 	// Step #3: Try to hyphenate
@@ -669,7 +672,12 @@ func (fc *FontConfigurationGotext) splitFirstLine(hyphenCache map[HyphenDictKey]
 	if len(dictionaryIterations) != 0 {
 		var newFirstLineText []rune
 		for _, firstWordPart := range dictionaryIterations {
-			newFirstLineText = append(append(append([]rune(nil), firstLineText...), secondLineText[:startWord]...), []rune(firstWordPart)...)
+			if nextWordInFirstLine {
+				// the word is the (too long) first line itself: what precedes it is in the first line
+				newFirstLineText = append(append([]rune(nil), firstLineText[:startWord]...), []rune(firstWordPart)...)
+			} else {
+				newFirstLineText = append(append(append([]rune(nil), firstLineText...), secondLineText[:startWord]...), []rune(firstWordPart)...)
+			}
 			hyphenatedFirstLineText = append(newFirstLineText, hyphenateCharacter...)
 			newFirstLine := fc.wrap(hyphenatedFirstLineText, style, maxWidthV)
 			newSpace := maxWidthV - newFirstLine.Width
